@@ -96,17 +96,17 @@ func outBytes(b []byte, o *Output) []byte {
 
 // ForkIDPreimage returns the 10-field replay-protected preimage for input idx:
 //
-//	 1. nVersion (4, LE)
-//	 2. hashPrevouts  (sha256d of all outpoints; 32 zero bytes if ANYONECANPAY)
-//	 3. hashSequence  (sha256d of all nSequence; zero if ANYONECANPAY or base type SINGLE/NONE)
-//	 4. outpoint of the signed input (32 + 4)
-//	 5. script code, compact-size prefixed
-//	 6. value of the spent output (8, LE)
-//	 7. nSequence of the signed input
-//	 8. hashOutputs   (base type not SINGLE/NONE: sha256d of all outputs;
-//	    SINGLE with idx < #outputs: sha256d of that output; otherwise zero)
-//	 9. nLockTime
-//	10. hash type (4, LE)
+//  1. nVersion (4, LE)
+//  2. hashPrevouts  (sha256d of all outpoints; 32 zero bytes if ANYONECANPAY)
+//  3. hashSequence  (sha256d of all nSequence; zero if ANYONECANPAY or base type SINGLE/NONE)
+//  4. outpoint of the signed input (32 + 4)
+//  5. script code, compact-size prefixed
+//  6. value of the spent output (8, LE)
+//  7. nSequence of the signed input
+//  8. hashOutputs   (base type not SINGLE/NONE: sha256d of all outputs;
+//     SINGLE with idx < #outputs: sha256d of that output; otherwise zero)
+//  9. nLockTime
+//  10. hash type (4, LE)
 func ForkIDPreimage(tx *Tx, idx int, scriptCode []byte, value uint64, hashType uint32) ([]byte, error) {
 	if idx < 0 || idx >= len(tx.Inputs) {
 		return nil, ErrIndex
